@@ -94,6 +94,9 @@ func entryPoints() []ep {
 	fx("DebugContext(blank)", slog.DebugLevel, func(l slog.Logger, c context.Context) { l.DebugContext(c, " \t ") })
 	fx("OK(blank)", slog.OKLevel, func(l slog.Logger, _ context.Context) { l.OK("") })
 	fx("Print(blank)", slog.AlwaysLevel, func(l slog.Logger, _ context.Context) { l.Print("") })
+	fx("Println()", slog.AlwaysLevel, func(l slog.Logger, _ context.Context) { l.Println() })
+	fx("Println(blank)", slog.AlwaysLevel, func(l slog.Logger, _ context.Context) { l.Println("") })
+	fx("PrintlnContext(blank)", slog.AlwaysLevel, func(l slog.Logger, c context.Context) { l.PrintlnContext(c, " ") })
 	eps = append(eps, ep{name: "LogAttrs(blank)", call: func(l slog.Logger, c context.Context, s slog.Level) { l.LogAttrs(c, s, "") }})
 	eps = append(eps, ep{name: "Logit(blank)", call: func(l slog.Logger, c context.Context, s slog.Level) { l.Logit(c, s, "\r\n") }})
 	eps = append(eps, ep{name: "LogAttrs", call: func(l slog.Logger, c context.Context, s slog.Level) { l.LogAttrs(c, s, m, "a", 1) }})
@@ -115,6 +118,7 @@ func entryPoints() []ep {
 	px := func(name string, sev slog.Level, f func(ctx context.Context)) {
 		eps = append(eps, ep{name: "pkg." + name, fixed: true, sev: sev, pkg: true, call: func(_ slog.Logger, ctx context.Context, _ slog.Level) { f(ctx) }})
 	}
+	px("Println()", slog.AlwaysLevel, func(context.Context) { slog.Println() })
 	px("Warn(blank)", slog.WarnLevel, func(context.Context) { slog.Warn("") })
 	px("TraceContext(blank)", slog.TraceLevel, func(c context.Context) { slog.TraceContext(c, " ") })
 	px("Panic", slog.PanicLevel, func(context.Context) { slog.Panic(m, "a", 1) })
@@ -290,6 +294,14 @@ func c01table(c *Ctx) {
 		mkRoot := func() slog.Logger {
 			l := slog.New("gate")
 			l.SetWriter(w1).SetErrorWriter(w2).AddLevelWriter(slog.InfoLevel, w3)
+			// per-level writers that were added and removed again (for every second severity): an admitted record of
+			// such a severity still produces output
+			for i, lv := range append(append([]slog.Level(nil), builtinLevels...), 99) {
+				if (i+idx)%2 == 0 && lv != slog.InfoLevel {
+					l.AddLevelWriter(lv, w3)
+					l.RemoveLevelWriter(lv, w3)
+				}
+			}
 			l.SetColorMode(false)
 			return l
 		}
